@@ -22,6 +22,9 @@ import PcbV.Gen.Errors
                            ↦ `EPos` (`prog i`: inside statement i; `direct`; `zero`);
       `Program.get_line_number(pos)` ↦ `lineOf` (the last line marker at or before statement i);
     * `on_error` (None and 0 are treated alike by the code) ↦ `onErr : Nat`, 0 = no trap;
+    * an error raised while a DEF FN body is evaluated: `UserFunction.evaluate` puts the program pointer
+      back to the call site (in a `finally`) before `trap_error` reads it, so the error belongs to the
+      CALLING statement ↦ `fnc` raises like any other statement, at its own position;
     * `values.error_handler._do_raise` (set by ON ERROR GOTO n, n ≠ 0; reset by ON ERROR GOTO 0 and by
       `Interpreter.clear`, i.e. RUN / CLEAR / NEW / CHAIN; NOT reset when RESUME without error switches the
       trap off) ↦ `softRaise`.
@@ -56,6 +59,15 @@ inductive Stmt
   | inc                         -- G%=G%+1           (guard counter)
   | endIf (n : Nat)             -- IF G%>n THEN END  (last statement of its line)
   | run                         -- RUN
+  | nop                         -- a statement without effect on this mechanism (TROFF, KEY OFF, DATA …)
+  | defFn (k : Nat)             -- DEF FN<k>…: defines user function k (Illegal direct outside a program)
+  | fnc (ks : List Nat) (v e : Nat)
+                                -- a statement whose expression calls user function(s) ks (nested calls:
+                                -- all of them must be defined, else Undefined user function); the body
+                                -- fails with error e while flag v is clear
+  | forc (v e : Nat)            -- FOR Q%=1 TO <expr failing with e while flag v is clear, else 0>; the next
+                                -- statement is its NEXT: once the flag is set the (empty) loop is skipped
+  | nextq                       -- that NEXT, reached on its own (RESUME NEXT after the FOR failed)
   deriving DecidableEq, Repr
 
 structure Line where
@@ -110,6 +122,7 @@ structure St where
   run : Bool                       -- run_mode
   pc : Nat                         -- current_statement
   flags : Nat → Bool
+  defs : Nat → Bool                -- user functions defined by DEF FN (cleared by RUN)
   g : Nat                          -- G%
   gosubs : List (Bool × Nat)       -- (run mode, position after the calling statement), innermost first
   onErr : Nat                      -- on_error (0 = None or 0)
@@ -120,7 +133,7 @@ structure St where
   softRaise : Bool                 -- math errors are raised instead of soft-handled
   out : List Item                  -- most recent first
 
-def St.init : St := ⟨false, 0, fun _ => false, 0, [], 0, false, none, 0, .zero, false, []⟩
+def St.init : St := ⟨false, 0, fun _ => false, fun _ => false, 0, [], 0, false, none, 0, .zero, false, []⟩
 
 inductive Res
   | running (s : St)
@@ -220,11 +233,21 @@ def execStmt (code : List Instr) (s : St) : Stmt → Outcome
   | .end_ => doEnd s
   | .inc => advance { s with g := s.g + 1 }
   | .endIf n => if s.g > n then doEnd s else advance s
+  | .nop => advance s
+  | .defFn k =>
+    if s.run then advance { s with defs := fun w => if w = k then true else s.defs w }
+    else .raise E.illegal_direct s
+  | .fnc ks v e =>
+    if ks.all s.defs then (if s.flags v then advance s else .raise e s)
+    else .raise E.undefined_user_function s
+  | .forc v e => if s.flags v then .next { s with pc := s.pc + 2 } else .raise e s
+  | .nextq => .raise E.next_without_for s
   | .run =>
     -- `run_`: on_error = 0, handle mode off, stacks cleared, then `_clear_all` → `Interpreter.clear`:
     -- ERR/ERL 0, trapping state initialised, soft handling of math errors switched back on,
     -- GOSUB stack dropped, variables cleared
-    .next { s with run := true, pc := 0, flags := fun _ => false, g := 0, gosubs := [], onErr := 0,
+    .next { s with run := true, pc := 0, flags := fun _ => false, defs := fun _ => false, g := 0,
+                   gosubs := [], onErr := 0,
                    handling := false, resume := none, errNum := 0, errPos := .zero, softRaise := false }
 
 /-- the statement under the pointer -/
